@@ -43,6 +43,8 @@ PROPS = {
                       rp("storefs", "TestC09Faults", (30, 2), (500, 8), helpers=["cmd/vhelper"])]},
     "C10": {"level": "exploration", "assumptions": SIM_ASSUME + ["variables reach the runner as decoded JSON (float64 numbers), as the API delivers them"],
             "parts": [sim("TestC10Sim", q=(200, 4), t=(2500, 16)), rp("storefs", "TestC10Codec", (2000, 2), (50000, 8))]},
+    "C12": {"level": "exploration", "assumptions": SIM_ASSUME + ["the wall clock of the sandbox: generated job ages stay >=25% away from the retention period boundaries"],
+            "parts": [sim("TestC12", q=(250, 4), t=(2500, 16))]},
     "C14": {"level": "exploration", "assumptions": PURE_ASSUME + ["HMAC-SHA256 is unforgeable; the run's secret never appears in a generated invalid credential unless the harness itself signs with it", "route discovery through the verif-only server.Routes hook + chi.Walk"],
             "parts": [rp("httpauth", "TestC14", (3000, 2), (60000, 8))]},
     "C15": {"level": "exploration", "assumptions": SIM_ASSUME, "parts": [sim("TestC15", q=(250, 4), t=(3000, 16))]},
